@@ -56,6 +56,11 @@ def cases(tier, seed):
         # lexicographic order differs from the row order
         yield {'L': L, 'shape': shape, 'scheme': 'B', 'n_cells': 12,
                'seed': seed, 'd': 0, 'many_chunks': True}
+        if n == 3 or tier == 'thorough':
+            # 100 cells: chunk names with one and two digit starts whose
+            # first and last chunk still sort first and last
+            yield {'L': L, 'shape': shape, 'scheme': 'D', 'n_cells': 100,
+                   'seed': seed, 'd': 0, 'many_chunks': True}
 
 
 def config_space(L, n_cells, d):
@@ -115,13 +120,17 @@ def evaluate(case, scratch, want=('C01',), prop='C01', space_fn=None):
     sample = None
     if case.get('many_chunks'):
         space = []
-        for cs, npr in ((1, 1), (1, 3), (5, 1)):
+        pools = ((1, 1), (1, 3), (5, 1))
+        if case['n_cells'] >= 100:
+            pools = ((5, 2), (1000, 16), (10, 3))
+        for cs, npr in pools:
             c0 = dict(scenario.DEFAULT_CFG, chunk_size=cs, n_processors=npr,
                       marker_mode='full', seam='cli')
             space.append((c0, ('chunk_size', 'n_processors')))
-        space.append((dict(scenario.DEFAULT_CFG, chunk_size=1,
-                           n_processors=3, marker_mode='full',
-                           seam='direct'), ('chunk_size', 'seam')))
+        if case['n_cells'] < 100:
+            space.append((dict(scenario.DEFAULT_CFG, chunk_size=1,
+                               n_processors=3, marker_mode='full',
+                               seam='direct'), ('chunk_size', 'seam')))
     elif space_fn is not None:
         space = space_fn(case)
     else:
